@@ -2,6 +2,7 @@ package strconv
 
 import (
 	"math"
+	"strconv"
 )
 
 // ParseDecimal parses number of the format 1.2
@@ -78,6 +79,12 @@ func AppendDecimal(b []byte, f float64, dec int) []byte {
 
 	if dec < 0 || 17 < dec {
 		dec = 17
+	}
+	for 0 < dec && 1<<63 <= math.Abs(f)*math.Pow10(dec) {
+		dec-- // must fit in an int64, these are beyond the 17 significant digits of a float64 anyway
+	}
+	if 1<<63 <= math.Abs(f) {
+		return strconv.AppendFloat(b, f, 'f', 0, 64) // integer that does not fit in an int64
 	}
 	f *= math.Pow10(dec)
 
